@@ -517,7 +517,7 @@ def run(ctx):
     stats = Counter()
     samples = []
     known_counts = Counter()
-    tmpdir = tempfile.mkdtemp(prefix="c09-")            # on disk: corpus, every 10th file sequence, the stress runs
+    tmpdir = tempfile.mkdtemp(prefix="c09-")            # on disk: corpus, every 20th file sequence, the stress runs
     fastdir = tmpdir                                     # tmpfs when there is one: the bulk of the file sequences
     if os.path.isdir("/dev/shm") and os.access("/dev/shm", os.W_OK):
         fastdir = tempfile.mkdtemp(prefix="c09-", dir="/dev/shm")
@@ -575,7 +575,7 @@ def run(ctx):
                 pending = []
                 for n in range(per):
                     serial[0] += 1
-                    on_disk = n % 10 == 0
+                    on_disk = n % 20 == 0
                     be = Backend(kind, tmpdir if on_disk else fastdir, serial[0])
                     if kind == "sqlite-file":
                         stats["file_seq_on_disk" if on_disk or fastdir == tmpdir else "file_seq_on_tmpfs"] += 1
@@ -592,7 +592,13 @@ def run(ctx):
                     known_counts.update(laws.known)
                     writes = sum(1 for o in ops if o[0] in ("create", "update", "delete"))
                     dist.add((kind, json.dumps(ops)), nontrivial=writes >= 1 and len(ops) >= 3)
+                    seen_laws = set()
                     for (law, idx, got) in laws.bad:
+                        stats["law_failures"] += 1
+                        if law in seen_laws or stats["law_failures_reported"] >= 8:
+                            continue                     # one report per law and sequence, at most 8 shrunk reports
+                        seen_laws.add(law)
+                        stats["law_failures_reported"] += 1
                         small = fw.shrink_list(ops, lambda c: any(b[0] == law for b in replay_ops(kind, c, tmpdir, 0, False)[1].bad))
                         ctx.violation("law %s fails on the real %s (call %d): got %s; shrunk to %s" % (law, kind, idx, got, json.dumps(small)[:300]),
                                       dict(kind="law", law=law, backend=kind, ops=small))
